@@ -3528,7 +3528,7 @@ public:
     SBEPP_CPP20_CONSTEXPR iterator
         erase(iterator first, iterator last) const noexcept
     {
-        SBEPP_ASSERT(first >= begin() && last < end());
+        SBEPP_ASSERT(first >= begin() && first <= last && last <= end());
         std::copy(last, end(), first);
         resize(size() - (last - first), default_init);
         return first;
